@@ -159,12 +159,17 @@ Definition pqres (r : qres) : string :=
   end.
 
 (* ---------------------------------------------------------------- runner state *)
-Record rstate := mkrs {
+(* follow mode: the runner reads the implementation's trace; after every state-changing event it adopts the
+   state the implementation dumped, so that each step is compared from the same pre-state (no cascades) *)
+Record follow := mkfollow { fo_on : bool; fo_adopt : bool; fo_seen : bool; fo_acc : state }.
+Record rstate := mkrs0 {
   rs_st : state;
   rs_markers : list (string * mkind);
   rs_attrs : list (string * list string);
   rs_crate : string; rs_version : string; rs_self : string;
-  rs_fix : fixes }.
+  rs_fix : fixes;
+  rs_follow : follow }.
+Definition mkrs st m a c v s f : rstate := mkrs0 st m a c v s f (mkfollow false false false empty_state).
 
 Fixpoint no_upper (s : string) : bool :=
   match s with
@@ -178,10 +183,13 @@ Definition env_of (r : rstate) : env :=
   mkenv (fun d => match lookup d (rs_markers r) with Some k => k | None => MNone end)
         (fun a => match lookup a (rs_attrs r) with Some l => l | None => [] end)
         mock_addr_ok (rs_self r) (rs_version r) (rs_crate r).
-Definition init_rstate (fx : fixes) : rstate :=
-  mkrs empty_state [] [] "ats_smart_contract" "1.0.0" "cosmos2contract" fx.
+Definition init_rstate (fx : fixes) (follow_on : bool) : rstate :=
+  mkrs0 empty_state [] [] "ats_smart_contract" "1.0.0" "cosmos2contract" fx
+        (mkfollow follow_on false false empty_state).
 Definition with_st (r : rstate) (st : state) : rstate :=
-  mkrs st (rs_markers r) (rs_attrs r) (rs_crate r) (rs_version r) (rs_self r) (rs_fix r).
+  mkrs0 st (rs_markers r) (rs_attrs r) (rs_crate r) (rs_version r) (rs_self r) (rs_fix r) (rs_follow r).
+Definition with_follow (r : rstate) (f : follow) : rstate :=
+  mkrs0 (rs_st r) (rs_markers r) (rs_attrs r) (rs_crate r) (rs_version r) (rs_self r) (rs_fix r) f.
 
 (* ---------------------------------------------------------------- request parsers *)
 Definition dmarker (s : string) : option (string * mkind) :=
@@ -306,7 +314,7 @@ Definition is_trace_kw (k : string) : bool :=
   mem k ["OUT"; "MSG"; "ATTR"; "QRY"; "STORAGE"; "ASK"; "ASKX"; "BID3"; "BID2"; "BIDX"; "CFG"; "VER";
          "END"; "XKEY"].
 
-Definition run_line (r : rstate) (raw : string) : rstate * list string :=
+Definition step_line (r : rstate) (raw : string) : rstate * list string :=
   let line := strip_ev raw in
   let e := env_of r in
   let fx := rs_fix r in
@@ -398,6 +406,58 @@ Definition run_line (r : rstate) (raw : string) : rstate * list string :=
       end
     | _, _ => (r, malformed line)
     end
+  end.
+
+(* follow-mode wrapper: processes the dump lines of the implementation's trace *)
+Definition adoptable (kw : string) : bool :=
+  mem kw ["INST"; "EXEC"; "MIGRATE"; "SEEDVER"; "SEEDNOVER"; "SEEDCFG"; "SEEDASK"; "SEEDBID3"; "SEEDBID2"].
+Definition run_line (r : rstate) (raw : string) : rstate * list string :=
+  let f := rs_follow r in
+  if negb (fo_on f) then
+    let '(r', out) := step_line r raw in (with_follow r' f, out)
+  else
+  if String.prefix "EV " raw then
+    let kw := match split " " (strip_ev raw) with k :: _ => k | [] => "" end in
+    let '(r', out) := step_line r raw in
+    (with_follow r' (mkfollow true (adoptable kw) false empty_state), out)
+  else
+  match split " " raw with
+  | "END" :: _ =>
+    let r' := if fo_adopt f && fo_seen f then with_st r (fo_acc f) else r in
+    (with_follow r' (mkfollow true false false empty_state), [])
+  | "ASK" :: k :: rest =>
+    match dstr k, dask rest with
+    | Some k, Some a => (with_follow r (mkfollow true (fo_adopt f) (fo_seen f)
+                           (set_asks (fo_acc f) (st_asks (fo_acc f) ++ [(k, a)]))), [])
+    | _, _ => (r, [])
+    end
+  | "BID3" :: k :: rest =>
+    match dstr k, dbid3 rest with
+    | Some k, Some b => (with_follow r (mkfollow true (fo_adopt f) (fo_seen f)
+                           (set_bids (fo_acc f) (st_bids (fo_acc f) ++ [(k, SlotV3 b)]))), [])
+    | _, _ => (r, [])
+    end
+  | "BID2" :: k :: rest =>
+    match dstr k, dbid2 rest with
+    | Some k, Some b => (with_follow r (mkfollow true (fo_adopt f) (fo_seen f)
+                           (set_bids (fo_acc f) (st_bids (fo_acc f) ++ [(k, SlotV2 b)]))), [])
+    | _, _ => (r, [])
+    end
+  | "CFG" :: rest =>
+    let acc := fo_acc f in
+    let acc' := match dcfg rest with
+                | Some c => mkstate (Some c) (st_ver acc) (st_asks acc) (st_bids acc)
+                | None => mkstate None (st_ver acc) (st_asks acc) (st_bids acc)
+                end in
+    (with_follow r (mkfollow true (fo_adopt f) true acc'), [])
+  | ["VER"; d; v] =>
+    let acc := fo_acc f in
+    match dstr d, dstr v with
+    | Some d, Some v => (with_follow r (mkfollow true (fo_adopt f) (fo_seen f)
+                           (mkstate (st_cfg acc) (Some (d, v)) (st_asks acc) (st_bids acc))), [])
+    | _, _ => (r, [])
+    end
+  | _ => (r, [])
   end.
 
 (* ---------------------------------------------------------------- decimal differential mode *)
